@@ -283,15 +283,24 @@ def run(prog, rep):
         cls = prog.cls(spec)
         fn = inline(prog, cls, cls.methods['diff'], exclude=('_dict_diff', '_dict_common'))
         fenv7 = local_env(fn)
-        for r_ in [x for x in walk_no_nested(fn) if isinstance(x, ast.Return) and isinstance(x.value, ast.Call) and call_name(x.value) == 'TopologyDiff']:
+        for r_ in [x for x in walk_no_nested(fn) if isinstance(x, ast.Return) and x.value is not None and
+                   any(isinstance(c_, ast.Call) and call_name(c_) == 'TopologyDiff' for c_ in ast.walk(x.value))]:
             parts = set()
-            for c_ in ast.walk(r_.value):
+            ifexp_tests = []
+            tdc = [c_ for c_ in ast.walk(r_.value) if isinstance(c_, ast.Call) and call_name(c_) == 'TopologyDiff'][0]
+            p_ = getattr(tdc, '_parent', None)
+            while p_ is not None and p_ is not r_:
+                if isinstance(p_, ast.IfExp):
+                    ifexp_tests.append(p_.test)
+                p_ = getattr(p_, '_parent', None)
+            for c_ in ast.walk(tdc):
                 if isinstance(c_, ast.Call) and call_name(c_) in ('TopologyDiffTuple', 'TopologyDiffModifiedTuple'):
                     for a_ in list(c_.args) + [k.value for k in c_.keywords]:
                         ae = a_
                         if isinstance(ae, ast.Name):
                             parts.add(ae.id)
             _, conds_ = _enclosing(r_, fn)
+            conds_ = list(conds_) + ifexp_tests
             tested = set()
             for c_ in conds_:
                 for x in ast.walk(expand(c_, {k: v for k, v in fenv7.items() if k not in parts})):
